@@ -323,7 +323,7 @@ def ringwrap_program(rng):
 
 
 # ------------------------------------------------------------------------------------------------ log parsing
-STATE_RE = re.compile(r"\|c(\d+) i=(\S*) r=(\S*) w=(\S*) X=(\d)")
+STATE_RE = re.compile(r"\|c(\d+) i=(\S*) r=(\S*) w=(\S*) X=(\d)(?: n=(\d+)/(\d)/(\d+))?")
 
 
 def parse_pending(s):
@@ -341,7 +341,8 @@ def parse_state(s):
     for m in STATE_RE.finditer(s):
         st["chans"][int(m.group(1))] = {
             "items": [x for x in m.group(2).split(",") if x],
-            "r": parse_pending(m.group(3)), "w": parse_pending(m.group(4)), "closed": m.group(5) == "1"}
+            "r": parse_pending(m.group(3)), "w": parse_pending(m.group(4)), "closed": m.group(5) == "1",
+            "cfc": (int(m.group(6)), m.group(7) == "1", int(m.group(8))) if m.group(6) is not None else None}
     for part in s.split("|"):
         if part.startswith("q="):
             st["q"] = [x for x in part[2:].split(",") if x]
@@ -396,7 +397,7 @@ def oracle(prog, verdict, log):
              "selects_waited": 0, "close_wakes": 0, "received": 0, "nil_results": 0, "losing_give_delivered": 0,
              "deadlocks": 0, "errors": 0, "stale_tasks_in_runq": 0, "cancelled_fibers": 0, "kept_checks": 0,
              "kept_checks_select": 0, "select_gives_immediate": 0,
-             "supervised_fibers": 0, "supervisor_events": 0}
+             "supervised_fibers": 0, "supervisor_events": 0, "count_full_capacity_checks": 0}
     try:
         ev = parse_log(log)
     except Exception as e:  # malformed log is a result too
@@ -444,6 +445,13 @@ def oracle(prog, verdict, log):
 
     def check_state(st, where):
         for c, ch in st["chans"].items():
+            if ch.get("cfc") is not None:
+                # ev/count = number of queued items, ev/full = count >= capacity, ev/capacity = the capacity given to ev/chan
+                stats["count_full_capacity_checks"] += 1
+                want = (len(ch["items"]), len(ch["items"]) >= prog["limits"][c], prog["limits"][c])
+                if ch["cfc"] != want:
+                    fails.append(("count-full-capacity", "%s: channel %d: (ev/count, ev/full, ev/capacity) = %r, expected %r (items %r)" % (
+                        where, c, ch["cfc"], want, ch["items"])))
             lr = [e for e in ch["r"] if live(e, st)]
             lw = [e for e in ch["w"] if live(e, st)]
             if lr and ch["items"] and not ch["closed"]:
